@@ -126,6 +126,12 @@ def evalLine (line : String) : String :=
     | some rv =>
       if vs == "bits" then Diag.inv3Line SolveDriver.bitsIO (dbg == "dbg") root rv answers
       else Diag.inv3Line SolveDriver.rangeIO (dbg == "dbg") root rv answers
+  | ["inv4", vs, dbg, root, rv, _reg, _strat, _fault, answers] =>
+    match rv.toNat? with
+    | none => bad
+    | some rv =>
+      if vs == "bits" then Diag.inv4Line SolveDriver.bitsIO (dbg == "dbg") root rv answers
+      else Diag.inv4Line SolveDriver.rangeIO (dbg == "dbg") root rv answers
   | ["diag", vs, dbg, root, rv, _reg, _strat, _fault, answers] =>
     match rv.toNat? with
     | none => bad
